@@ -44,7 +44,7 @@ def NodeKind.isFull : NodeKind → Bool
 structure Peer where
   id : Nat
   conns : List (Nat × Option Nat)
-  protected : List Nat
+  prot : List Nat
   trusted : Bool
   archival : Bool
   kind : NodeKind
@@ -54,12 +54,12 @@ structure Peer where
 
 /-- `Peer::new`: starts as disconnected, now -/
 def Peer.new (id : Nat) : Peer :=
-  { id, conns := [], protected := [], trusted := false, archival := false, kind := .unknown,
+  { id, conns := [], prot := [], trusted := false, archival := false, kind := .unknown,
     disconnectedAt := some 0 }
 
 def Peer.isConnected (p : Peer) : Bool := !p.conns.isEmpty
-def Peer.isProtected (p : Peer) : Bool := !p.protected.isEmpty
-def Peer.isProtectedWithTag (p : Peer) (tag : Nat) : Bool := p.protected.contains tag
+def Peer.isProtected (p : Peer) : Bool := !p.prot.isEmpty
+def Peer.isProtectedWithTag (p : Peer) (tag : Nat) : Bool := p.prot.contains tag
 def Peer.isFull (p : Peer) : Bool := p.kind.isFull
 
 /-- `Peer::best_ping` -/
@@ -186,8 +186,8 @@ def setTrusted (s : State) (id : Nat) (v : Bool) : State × Out :=
 def protect (s : State) (id tag : Nat) : State × Out :=
   let p := entryPeer s.peers id
   let was := p.isProtected
-  let fresh := !p.protected.contains tag
-  let peers := upsertPeer s.peers id (fun p => { p with protected := setInsert p.protected tag })
+  let fresh := !p.prot.contains tag
+  let peers := upsertPeer s.peers id (fun p => { p with prot := setInsert p.prot tag })
   let counter := if fresh then counterIncr s.protectCounter tag else s.protectCounter
   ({ s with peers, protectCounter := counter }, { ret := some (!was) })
 
@@ -196,9 +196,9 @@ def unprotect (s : State) (id tag : Nat) : State × Out :=
   | none => (s, { ret := some false })
   | some p =>
     let was := p.isProtected
-    let p' := { p with protected := setRemove p.protected tag }
-    let peers := modifyPeer s.peers id (fun p => { p with protected := setRemove p.protected tag })
-    if p.protected.contains tag then
+    let p' := { p with prot := setRemove p.prot tag }
+    let peers := modifyPeer s.peers id (fun p => { p with prot := setRemove p.prot tag })
+    if p.prot.contains tag then
       match counterDecr s.protectCounter tag with
       | none => ({ s with peers }, { panic := true })
       | some c => ({ s with peers, protectCounter := c }, { ret := some (was && !p'.isProtected) })
